@@ -164,6 +164,8 @@ def cexpr(n, env):
         return ('B', fmt % (r, l))
     if lt == 'V' and rt == 'S' and op is ast.Lt:
       return ('VB', "(nn_lt_vs %s %s)" % (l, r))
+    if lt == 'V' and rt == 'S' and op is ast.LtE:
+      return ('VB', "(nn_le_vs %s %s)" % (l, r))
     if lt == rt == 'V' and op is ast.Gt:
       return ('VB', "(nn_gt_vv %s %s)" % (l, r))
     if lt == 'V' and rt == 'S' and op is ast.Gt:
